@@ -32,10 +32,18 @@ def main():
     src, sid, props = args[0], args[1], args[2:]
     dst = os.path.join(ROOT, 'seeded', sid)
     os.makedirs(dst, exist_ok=True)
+    history = []
+    if os.path.exists(os.path.join(dst, 'meta.json')):
+        try:
+            history = json.load(open(os.path.join(dst, 'meta.json'))).get('evaluation', [])
+        except Exception:
+            history = []
     for f in ('patch.diff', 'demo.py', 'meta.json'):
         if os.path.exists(os.path.join(src, f)) and os.path.abspath(src) != os.path.abspath(dst):
             shutil.copy(os.path.join(src, f), os.path.join(dst, f))
     meta = json.load(open(os.path.join(dst, 'meta.json')))
+    if not meta.get('evaluation'):
+        meta['evaluation'] = history          # evaluations made before the agent's files were copied again are kept
     clean = tempfile.mkdtemp(prefix='seed-clean-')
     mut = tempfile.mkdtemp(prefix='seed-mut-')
     res = {'ran': []}
